@@ -109,6 +109,8 @@ KNOWN_CLASSES = {
     "allOf_non_object_member": lambda kind, tags: "AllOf" in tags and kind == "valid-against-schema-but-rejected",
     "required_property_accepting_undefined": lambda kind, tags: "RequiredAcceptsUndefined" in tags and kind == "member-but-invalid-against-schema",
     "optional_nullish_property_is_required": lambda kind, tags: "OptionalNullish" in tags and kind == "member-but-invalid-against-schema",
+    "synthetic_variant_names_collide": lambda kind, tags: "DiscKeysCollide" in tags and kind in ("member-but-invalid-against-schema", "valid-against-schema-but-rejected"),
+    "shared_variant_listed_once_per_key": lambda kind, tags: "DiscSharedVariant" in tags and kind == "member-but-invalid-against-schema",
     "prototype_named_property": lambda kind, tags: "ProtoKey" in tags and kind in ("valid-against-schema-but-rejected", "member-but-invalid-against-schema"),
 }
 
@@ -264,10 +266,17 @@ def check(run):
         w = eval(k["witness"], {"__builtins__": {}}, {"None": None, "True": True, "False": False})
         okj, py = to_py(w["value"])
         out = common.run_driver([{"id": 0, "env": env_json(w["env"]), "rt": rt_json(w["rt"]),
-                                  "ops": [{"op": "schemaRaw"}, {"op": "validate", "v": val_canon(w["value"]), "strict": True}]}])[0]
+                                  "ops": [{"op": "schemaRaw"}, {"op": "validate", "v": val_canon(w["value"]), "strict": True},
+                                          {"op": "ctxseq", "calls": [0], "fresh": True}]}])[0]
         flat = json.loads(out[0])
         failing = False
-        if "schema" in flat:
+        if w.get("mode") == "contextual":
+            raw = json.loads(out[2])["raw"]
+            if not (isinstance(raw["outs"][0], dict) and "__error" in raw["outs"][0]):
+                orr = run_oracle([{"id": 0, "schema": raw["outs"][0], "defs": raw["defs"], "docs": [py]}])[0]
+                sv = orr["valid"][0]
+                failing = (orr["wellformed"] is not True) or isinstance(sv, str) or (sv != (out[1] == "t"))
+        elif "schema" in flat:
             orr = run_oracle([{"id": 0, "schema": flat["schema"], "docs": [py]}])[0]
             sv = orr["valid"][0]
             failing = (orr["wellformed"] is not True) or isinstance(sv, str) or (sv != (out[1] == "t"))
